@@ -42,27 +42,30 @@ fn resolved_long() -> ResolvedOwnedSchema {
     }
 }
 
-harness!(
-    /// reader (schema long): for all 12-byte inputs and all lengths: Ok only if the first 10 bytes
-    /// equal the expected header bit for bit and a complete datum follows; the value is then the
-    /// specification's decode of the rest.
-    reader_rejects_foreign_header, unwind = 14, {
-    let data: [u8; 12] = any_bytes();
+const HDR3: [u8; 3] = [0xC3, 0x01, 0x5A];
+
+harness_nodec!(
+    /// reader (schema long) configured with a 3-byte expected header (the comparison is
+    /// length-generic; a short header keeps the loop bounds small): for all 5-byte inputs and all
+    /// lengths, Ok only if the first 3 bytes equal the expected header bit for bit and a complete
+    /// datum follows; the value is then the specification's decode of the rest.
+    reader_rejects_foreign_header, unwind = 6, {
+    let data: [u8; 5] = any_bytes();
     let len = any_usize();
-    assume(len <= 12);
-    let rd = GenericSingleObjectReader { write_schema: resolved_long(), expected_header: HDR.to_vec(), human_readable: false };
+    assume(len <= 5);
+    let rd = GenericSingleObjectReader { write_schema: resolved_long(), expected_header: HDR3.to_vec(), human_readable: false };
     let mut src = Src::new(data, len);
-    let header_ok = len >= 10 && slice_eq(&data, &HDR, 10);
-    let want = if header_ok { spec::dec_long(&[data[10], data[11], 0, 0, 0, 0, 0, 0, 0, 0], len - 10) } else { None };
+    let header_ok = len >= 3 && slice_eq(&data, &HDR3, 3);
+    let want = if header_ok { spec::dec_long(&[data[3], data[4], 0, 0, 0, 0, 0, 0, 0, 0], len - 3) } else { None };
     witness!(header_ok && want.is_some(), "matching header and complete datum");
-    witness!(len >= 10 && !header_ok, "full-length foreign header");
+    witness!(len >= 3 && !header_ok, "full-length foreign header");
     match rd.read_value(&mut src) {
         Ok(v) => {
             assert!(header_ok, "a message whose header differs from the expected one (or is too short) was decoded");
             match (&v, want) {
                 (Value::Long(x), Some((w, used))) => {
                     assert!(*x == w, "datum after the header decoded to a different value");
-                    assert!(src.pos == 10 + used, "consumed != header + datum");
+                    assert!(src.pos == 3 + used, "consumed != header + datum");
                 }
                 _ => assert!(false, "Ok for an incomplete datum after the header"),
             }
@@ -71,6 +74,30 @@ harness!(
         Err(e) => {
             leak(e);
             assert!(!header_ok || want.is_none(), "well-formed single-object message rejected");
+        }
+    }
+    leak(rd);
+});
+
+harness!(
+    /// the header check alone, with the real 10-byte header: Ok iff the input has at least 10 bytes
+    /// and they equal the expected header in every bit.
+    read_header_exact, unwind = 14, {
+    let data: [u8; 11] = any_bytes();
+    let len = any_usize();
+    assume(len <= 11);
+    let rd = GenericSingleObjectReader { write_schema: resolved_long(), expected_header: HDR.to_vec(), human_readable: false };
+    let mut src = Src::new(data, len);
+    let header_ok = len >= 10 && slice_eq(&data, &HDR, 10);
+    witness!(header_ok, "matching header");
+    match rd.read_header(&mut src) {
+        Ok(()) => {
+            assert!(header_ok, "a header that differs from the expected one (or is too short) was accepted");
+            assert!(src.pos == 10, "header check consumed != 10 bytes");
+        }
+        Err(e) => {
+            leak(e);
+            assert!(!header_ok, "the expected header was rejected");
         }
     }
     leak(rd);
@@ -98,7 +125,7 @@ fn write_once(w: &mut GenericSingleObjectWriter, n: i64, fail: bool) -> Option<(
     }
 }
 
-harness!(
+harness_nodec!(
     /// two calls on one writer; the first may hit a failing sink and/or a value of another
     /// length: the second message must be exactly header + datum (independently decodable).
     writer_buffer_reuse, unwind = 26, {
@@ -129,5 +156,6 @@ harness!(
 pub const HARNESSES: &[(&str, fn())] = &[
     ("c18::header_layout", header_layout::body),
     ("c18::reader_rejects_foreign_header", reader_rejects_foreign_header::body),
+    ("c18::read_header_exact", read_header_exact::body),
     ("c18::writer_buffer_reuse", writer_buffer_reuse::body),
 ];
